@@ -209,6 +209,32 @@ def clipModules (form : ClipForm) (c : Int) (mods : List (List Int)) : List (Lis
     | [] => []
     | m :: rest => clip1 c m :: rest
 
+/-! ## the form of `zero_grad` in the loop body
+
+`optimizer.zero_grad()` (torch ≥ 2: `set_to_none=True`) leaves `.grad = None`: a parameter that receives no gradient in the
+next window (a conditionally used head / additional model) is then *skipped* by the optimiser.  `set_to_none=False` leaves a
+zero tensor: stateful optimisers (momentum, Adam moments, weight decay) still move the parameter and advance its state. -/
+
+inductive ZeroForm where
+  | toNone     -- `zero_grad()` / `zero_grad(set_to_none=True)`
+  | toZero     -- `zero_grad(set_to_none=False)`
+deriving DecidableEq, Repr
+
+/-- the `zero_grad` calls of the loop body in source order: the OOM recovery and the step branch -/
+def zeroGradForms : List ZeroForm := [.toNone, .toNone]
+
+def wfZero (l : List ZeroForm) : Bool := l.all (· == .toNone) && !l.isEmpty
+
+/-- what the optimiser sees for a parameter that got no gradient in the window -/
+def idleGrad : ZeroForm → Option Int
+  | .toNone => none
+  | .toZero => some 0
+
+/-- SGD with momentum 1/2 on one parameter with an optional gradient (`None` = skipped, as `torch.optim` does) -/
+def momStep (lr θ buf : Int) : Option Int → Int × Int
+  | none => (θ, buf)
+  | some g => (θ - lr * (buf / 2 + g), buf / 2 + g)
+
 /-! ## the GradScaler protocol of the step branch (mixed precision)
 
 `_do_iteration` back-propagates `scaler.scale(loss)`: `.grad` holds `S ·` the accumulated gradients.  In the step branch the
